@@ -213,7 +213,13 @@ def run_case(ctx, case):
         if float(val) ** 2 > 1e-12 * S * S:
             ctx.oracle("values differ at a cancelling program: compressed %r dense %r" % (float(val), float(val2)), case)
         ctx.count("skipped:sqrt at 0"); return
-    if not case.get("tiny") and not close(val.detach().double().numpy(), val2.detach().double().numpy(), VT)[0]:
+    # the values are compared relative to the magnitude the head works with: a variance / squared norm / inner product is a difference of
+    # quantities of size max|x|^2 (a large additive constant in x cancels only in the last step of the compressed contraction)
+    with torch.no_grad():
+        mags = [float(v.detach().abs().max()) for v in (ev(case["prog"], dl, DENSE), ev(case["prog2"], dl, DENSE)) if isinstance(v, torch.Tensor) and v.numel()]
+    mag = max(mags + [1.0])
+    vscale = mag ** 2 if h in ("normsq", "var", "var_marg", "dot") else mag
+    if not case.get("tiny") and abs(float(val) - float(val2)) > VT * max(vscale, abs(float(val2)), 1.0):
         ctx.oracle("values differ: compressed %r dense %r" % (float(val), float(val2)), case)
         return
     scale = max([float(g.abs().max()) for g in g2 if g is not None] + [1e-12])
